@@ -16,6 +16,7 @@ import (
 	"strings"
 
 	"github.com/google/pprof/internal/driver"
+	"github.com/google/pprof/profile"
 )
 
 var c09Delims = []string{`"`, `'`, "`", "(", ")", "[", "]", "{", "}", "<", ">", "|", `\`, "/", "#", "=", ":", ";", ",", ".", "*", "+", "?", "^", "$", "%", "&", "~", "!", "@", "-", "_", " "}
@@ -89,8 +90,51 @@ func c09E2E(c *Ctx, stream string) {
 				c09Session(c, "e2e-long-session", p, []string{"top >o1", n + "=" + v, "top >o2", "tree >o3", "peek . >o4", n + "=", "text >o5"}, true)
 			}
 		}
+		// a REJECTED line typed again in the same process (state left behind by an error path): every
+		// command that takes a regexp argument x every malformed regexp, twice, then with a redirection,
+		// then ordinary work; likewise rejected assignments
+		bad := []string{"(", "[", "a{2,1}", "\\", ")", "+", "a{1001}", "\xff", "main(", "wor[k", "*"}
+		pnames, hasParam := driver.VerifC09Commands()
+		for i, n := range pnames {
+			if !hasParam[i] {
+				continue
+			}
+			for _, rx := range bad {
+				c09Session(c, "e2e-repeat", diamond, []string{n + " " + rx, n + " " + rx, n + " " + rx + " >o1", "top >o2", n + " . >o3"}, true)
+			}
+		}
+		for _, rx := range bad {
+			c09Session(c, "e2e-repeat", mixed, []string{"focus=" + rx, "top >o1", "top >o2", "focus=" + rx, "tree >o3", "tagfocus=" + rx, "tags", "tags", "focus=", "tagfocus=", "top >o4"}, true)
+			c09Session(c, "e2e-repeat", diamond, []string{"top " + rx, "top " + rx, "top -" + rx, "top -" + rx, "nodecount=" + rx, "nodecount=" + rx, "top >o1"}, true)
+		}
 		// several filters at once, all printed in one legend
 		c09Session(c, "e2e-long-session", mixed, []string{"focus=" + c09LongValues("focus")[9], "ignore=zz", "hide=" + c09LongValues("hide")[17], "tagfocus=v1", "show=.", "top >o1", "tree >o2"}, true)
+	case "e2e-lines":
+		// line numbers recorded in the profile drive loops of the source listings: functions whose
+		// line records are far apart (and negative / extreme), through every listing entry point.
+		// Own stream: a hang here must not cut the other deterministic streams short.
+		for _, pr := range [][3]int64{{10, 1 << 40, 1}, {10, 1 << 40, 0}, {-5, 1 << 33, 1}, {3, 1<<63 - 11, 1}, {1 << 40, 1<<40 + 2, 1 << 20}, {0, 1 << 50, -1}} {
+			b := newC09ShapeBuilder("samples")
+			b.sample("hot main", 100)
+			b.sample("hot other main", 50)
+			b.function("hot").StartLine = pr[2]
+			b.loc["hot"].Line[0].Line = pr[0]
+			far := b.location("hot") // second location of the same function, far away
+			l2 := *far
+			l2.ID = 999
+			l2.Address = 0x8000
+			l2.Line = []profile.Line{{Function: b.function("hot"), Line: pr[1]}}
+			b.p.Location = append(b.p.Location, &l2)
+			b.p.Sample = append(b.p.Sample, &profile.Sample{Location: []*profile.Location{&l2, b.location("main")}, Value: []int64{70}})
+			if b.p.CheckValid() != nil {
+				continue
+			}
+			for _, cmd := range []string{"list", "weblist", "disasm", "peek"} {
+				c09Session(c, "e2e-lines", b.p, []string{cmd + " hot >o1", cmd + " . >o2", "top >o3"}, true)
+				c09CLI(c, "e2e-lines-cli", b.p, []string{"-" + cmd + "=hot", "-output=out", "p"}, nil)
+			}
+			c09Web(c, "e2e-lines-web", b.p, nil, []c09Req{{"/source", "f=hot"}, {"/peek", "f=hot"}, {"/disasm", "f=hot"}, {"/flamegraph", ""}})
+		}
 	case "e2e-cli":
 		for ni, n := range c09FilterNames {
 			for vi, v := range c09LongValues(n) {
@@ -103,6 +147,15 @@ func c09E2E(c *Ctx, stream string) {
 					}
 					c09CLI(c, "e2e-long-cli", mixed, []string{cmd, "-" + n + "=" + v, "-output=out", "p"}, nil)
 				}
+			}
+		}
+		// the same rejected command line twice in one process
+		for _, cmd := range []string{"-list", "-peek", "-disasm", "-weblist"} {
+			for _, rx := range []string{"(", "[", "main(", "a{2,1}", "\xff"} {
+				for rep := 0; rep < 2; rep++ {
+					c09CLI(c, "e2e-repeat-cli", diamond, []string{cmd + "=" + rx, "-output=out", "p"}, nil)
+				}
+				c09CLI(c, "e2e-repeat-cli", diamond, []string{"-top", "-focus=" + rx, "-output=out", "p"}, nil)
 			}
 		}
 		for i, v := range c09DelimValues() {
@@ -146,6 +199,14 @@ func c09E2E(c *Ctx, stream string) {
 			}
 		}
 		flush("e2e-long-web")
+		// the same rejected request twice on one server
+		for _, pth := range []string{"/disasm", "/source", "/peek", "/top"} {
+			for _, rx := range []string{"(", "[", "main(", "\xff"} {
+				q := "f=" + url.QueryEscape(rx)
+				reqs = append(reqs, c09Req{pth, q}, c09Req{pth, q}, c09Req{pth, "f=."})
+			}
+			flush("e2e-repeat-web")
+		}
 		for i, v := range c09DelimValues() {
 			n := c09FilterNames[i%len(c09FilterNames)]
 			reqs = append(reqs, c09Req{paths[i%3], url.QueryEscape(urlOf[n]) + "=" + url.QueryEscape(v)}, c09Req{"/top", "f=" + v})
